@@ -380,6 +380,7 @@ func (m *Mux) serveHTTP(w http.ResponseWriter, r *http.Request) error {
 		defer conn.Close()
 
 		stream := &streamWS{
+			opts:   m.opts,
 			ctx:    ctx,
 			conn:   conn,
 			method: method,
